@@ -1004,6 +1004,22 @@ def suite_profiler(rng, n, stats, big_every=25):
         df = gen_profile_frame(rng, stats, big=(k % big_every == big_every - 1))
         attrs = None if rng.random() < 0.5 else rng.sample(list(df.columns), rng.randint(1, len(df.columns)))
         use = list(df.columns) if attrs is None else attrs
+        # table-level request (order of attributes, argument validation, empty table)
+        if len(df) < 100:
+            t_arg, a_arg = df, attrs
+            c = rng.random()
+            if c < 0.08:
+                t_arg = [1, 2]
+            elif c < 0.16:
+                a_arg = (attrs or []) + ['no_such_attr']
+            elif c < 0.22:
+                t_arg = df.iloc[0:0]
+            try:
+                o2 = profile_table_for_join(t_arg, a_arg)
+                e2 = {'ok': [[str(a), str(o2.loc[a, 'Unique values']), str(o2.loc[a, 'Missing values']), str(o2.loc[a, 'Comments'])] for a in o2.index]}
+            except Exception as e:   # noqa: BLE001
+                e2 = {'err': err_name(e)}
+            cases.append(({'op': 'profile_table', 'table': frame(t_arg), 'attrs': a_arg}, e2, None))
         try:
             out = profile_table_for_join(df, attrs)
             exp = {'ok': [[str(out.loc[a, 'Unique values']), str(out.loc[a, 'Missing values']), str(out.loc[a, 'Comments'])] for a in use]}
